@@ -409,7 +409,7 @@ func (c *Check) triviaJobs(entry, ver string, every int, rich bool, fuel int64, 
 	var keys []string
 	for _, s := range snips {
 		p := pr[s.ID]
-		if p == nil || p.NErr != 0 || s.Class == "pair" || s.Class == "double" {
+		if p == nil || p.NErr != 0 || s.Class == "pair" || s.Class == "double" || s.Class == "triple" {
 			continue
 		}
 		for _, g := range triviaGaps(s.Src, p, ids) {
@@ -500,7 +500,7 @@ func (c *Check) lexemeJobs(entry, ver string, every int, fuel int64) ([]JobNeed,
 	var keys []string
 	for _, s := range snips {
 		p := pr[s.ID]
-		if p == nil || p.NErr != 0 || s.Class == "pair" || s.Class == "double" {
+		if p == nil || p.NErr != 0 || s.Class == "pair" || s.Class == "double" || s.Class == "triple" {
 			continue
 		}
 		prev := 0
